@@ -77,11 +77,20 @@ inline std::string scratch_name(const char* tag, const char* ext) {
     static std::string dir = scratch_dir();
     return vh::cat(dir, "/", tag, ".", (long)getpid(), ".", counter++, ".", ext);
 }
+// The scratch file that currently exists (at most one per process): a fatal sanitizer report does not
+// unwind, so the death callback removes it (install_cleanup(), called after vh::init()).
+inline char* live_scratch() { static char p[512] = { 0 }; return p; }
 struct scratch_file {           // removes the file when it goes out of scope
     std::string path;
-    scratch_file(const char* tag, const char* ext) : path(scratch_name(tag, ext)) {}
-    ~scratch_file() { unlink(path.c_str()); }
+    scratch_file(const char* tag, const char* ext) : path(scratch_name(tag, ext)) { strncpy(live_scratch(), path.c_str(), 511); }
+    ~scratch_file() { unlink(path.c_str()); live_scratch()[0] = 0; }
 };
+inline void death_cleanup() { if (live_scratch()[0]) unlink(live_scratch()); vh::on_death(); }
+inline void install_cleanup() {
+#ifdef VH_HAVE_SANITIZER
+    vh::__sanitizer_set_death_callback(&death_cleanup);
+#endif
+}
 inline bool slurp(const std::string& path, std::string& out) {
     std::ifstream f(path.c_str(), std::ios::binary);
     if (!f) return false;
